@@ -13,7 +13,7 @@ from fractions import Fraction
 from . import arr as A
 from .arr import Arr, Unsupported, AbstractError, as_arr, prod
 from .poly import Poly, to_num, as_poly, pk, sym_id
-from .interp import Obj, ClassVal, ArrayType, Opaque, Func, BoundMethod, _MISSING
+from .interp import Obj, ClassVal, ArrayType, TracerType, Opaque, Func, BoundMethod, _MISSING
 
 
 class NS(object):
@@ -45,6 +45,8 @@ class World(object):
         self.track = True  # track element provenance
         self.param_geo = None  # callback(name, shape) -> geo for fresh parameter arrays
         self.app_counter = 0
+        self.trace_depth = 0  # > 0 while a jit / vmap wrapped function is being interpreted (arrays are tracers there)
+        self.concrete_permutation = None  # case split: random.permutation returns this concrete bijection
 
     def fresh_param(self, shape, what="P"):
         self.param_counter += 1
@@ -767,6 +769,13 @@ def make_shims(world):
             n = x
             W.param_counter += 1
             name = "perm%d" % W.param_counter
+            if W.concrete_permutation is not None:
+                if sorted(W.concrete_permutation) != list(range(n)):
+                    raise Unsupported("case split over permutations of range(%d) but range(%d) is shuffled" % (len(W.concrete_permutation), n))
+                a = Arr((n,), list(W.concrete_permutation), "int")
+                a.tag = name
+                W.trace.append(("permutation", name, n, A._SITE[0]))
+                return a
             a = Arr((n,), [Poly.leaf(name, (i,)) for i in range(n)], "int")
             a.tag = name
             W.trace.append(("permutation", name, n, A._SITE[0]))
@@ -872,6 +881,7 @@ def make_shims(world):
         tree_util=tree_util,
         tree=NS("jax.tree", map=tree_map_fn, leaves=tree_leaves_fn, flatten=lambda t, **k: (tree_leaves(t), ("treedef", t))),
         Array=ArrayType("jax.Array"),
+        core=NS("jax.core", Tracer=TracerType(W)),
         Device=object,
         typing=NS("jax.typing", ArrayLike=object),
     )
@@ -1136,9 +1146,17 @@ class JitWrap(object):
         if interp is not None and interp.jit_roundtrip:
             args = tuple(a if i in self.static else pytree_roundtrip(a) for i, a in enumerate(args))
             kwargs = {k: pytree_roundtrip(v) for k, v in kwargs.items()}
-            out = self.f(*args, **kwargs)
+            self.world.trace_depth += 1
+            try:
+                out = self.f(*args, **kwargs)
+            finally:
+                self.world.trace_depth -= 1
             return pytree_roundtrip(out)
-        return self.f(*args, **kwargs)
+        self.world.trace_depth += 1
+        try:
+            return self.f(*args, **kwargs)
+        finally:
+            self.world.trace_depth -= 1
 
     def __repr__(self):
         return "<jit %r>" % (self.f,)
@@ -1200,7 +1218,11 @@ class VmapWrap(object):
                     call_kw[k] = v
                 else:
                     call_kw[k] = tree_map(lambda leaf: A.getitem(leaf, (i,)), v)
-            outs.append(self.f(*call_args, **call_kw))
+            self.world.trace_depth += 1
+            try:
+                outs.append(self.f(*call_args, **call_kw))
+            finally:
+                self.world.trace_depth -= 1
         oa = self.out_axes
         if not isinstance(oa, int):
             if isinstance(oa, (tuple, list)) and isinstance(outs[0], tuple) and len(oa) == len(outs[0]) and all(isinstance(x, int) for x in oa):
